@@ -21,7 +21,7 @@ def upperX (o : Oracles) (agg : Option VecOp) (topk : Option TopOp) (p0 : List P
 theorem regroupP_eq : regroupP = regroupL := rfl
 
 theorem aggStageX_eq (o : Oracles) (a : VecOp) (pts : List Pt) :
-    aggStageX o a pts = aggCore o a.fn (pts.map (regroupL o ((chosenGrouping a.byPrefix a.bySuffix).getD ⟨true, []⟩))) := by
+    aggStageX o a pts = aggCore o a.fn (pts.map (regroupL o a.grouping)) := by
   unfold aggStageX aggCore groupsBy
   simp only [regroupP_eq, List.filterMap_map, Function.comp_def]
 
@@ -37,8 +37,7 @@ theorem pbw_ne (x : String) (k : Nat) (h : x ≠ "pre_by_without_" ++ toString k
 /-- **every stage above the range aggregation, on the labelled path.** -/
 theorem tailX_ok (o : Oracles) (c : MCtx) (d : LokiDb) (q0 : LogQuery) (dur : Nat) (agg : Option VecOp) (topk : Option TopOp)
     (s : PState) (p0 : List Pt) (L : List Alias) (hr : PStage o c d q0 s.sel p0 L) (hfresh : FreshFor L s.id)
-    (hat : ∀ p ∈ p0, PtAtomic p) (hcol : hasColumn s.sel.cols "labels" = true)
-    (hok : ∀ a, agg = some a → a.ok = true) :
+    (hat : ∀ p ∈ p0, PtAtomic p) (hcol : hasColumn s.sel.cols "labels" = true) :
     (evalSelA o (d.toDbM c) (finalizeMatrix (stepFixSel c dur (topkPhaseX topk (aggPhaseX c agg s).sel)))).map normRow =
       sortBy (rowLe matrixKeys) ((stepStage c.stepNs dur (upperX o agg topk p0)).map Pt.row) := by
   have fr : ∀ x : String, x ≠ "main" → x ≠ "_time_series" → x ≠ "agg_a" → x ≠ "unwrap_1" → x ≠ "quant_a" →
@@ -66,14 +65,13 @@ theorem tailX_ok (o : Oracles) (c : MCtx) (d : LokiDb) (q0 : LogQuery) (dur : Na
       rw [h3.final (notin_append (notin_append (fr _ (by decide) (by decide) (by decide) (by decide) (by decide)
         (by intro k; str_ne)) (by decide)) (by unfold stepAls; split <;> simp))]
   | some a =>
-    have hok' := hok a rfl
-    obtain ⟨g, hg⟩ := Option.isSome_iff_exists.mp hok'
+    obtain ⟨g, hg⟩ : ∃ g, a.grouping = g := ⟨_, rfl⟩
     have hA : (aggPhaseX c (some a) s).sel = cmpOpt a.cmp (aggSel a.fn true (byWithoutSimple s.id g s.sel)) := by
       simp only [aggPhaseX, hg, planByWithout, Bool.false_eq_true, if_false, optCmp_eq]
     have hU : (match (some a : Option VecOp) with
         | some a => cmpStage a.cmp (aggStageX o a p0)
         | none => p0) = cmpStage a.cmp (aggCore o a.fn (p0.map (regroupL o g))) := by
-      simp only [aggStageX_eq, hg, Option.getD_some]
+      simp only [aggStageX_eq, hg]
     rw [hA, byWithoutSimple_eq]
     have hbw : Alias.named ("pre_by_without_" ++ toString (s.id + 1)) ∉ L := by
       apply hfresh _ (by str_ne) (by str_ne) (by str_ne) (by str_ne) (by str_ne)
@@ -383,15 +381,13 @@ theorem supportedX_spec (q : MetricQueryX) (h : supportedX q = true) :
     (q.range.post = [] ∨ ∃ ch more, q.range.post = .ch ch :: more) ∧
     (∀ fn, q.range.kind = .lra fn → q.range.post ≠ []) ∧
     (∀ fn l, q.range.kind = .unwrap fn l → q.range.post ≠ []) ∧
-    (∀ a, q.agg = some a → a.ok = true) ∧
     1000000 ∣ q.range.durNs ∧ 0 < q.range.durNs ∧ q.range.sel.matchers.length ≤ 63 := by
   unfold supportedX at h
   simp only [Bool.and_eq_true, decide_eq_true_eq] at h
-  obtain ⟨⟨⟨⟨⟨h1, h2⟩, h3⟩, h4⟩, h5⟩, h6⟩ := h
-  refine ⟨splitPre_fst_nil _ h1, ?_, ?_, ?_, Nat.dvd_of_mod_eq_zero h4, h5, h6⟩
+  obtain ⟨⟨⟨⟨h1, h2⟩, h4⟩, h5⟩, h6⟩ := h
+  refine ⟨splitPre_fst_nil _ h1, ?_, ?_, Nat.dvd_of_mod_eq_zero h4, h5, h6⟩
   · intro fn hk; rw [hk] at h2; intro he; rw [he] at h2; simp at h2
   · intro fn l hk; rw [hk] at h2; intro he; rw [he] at h2; simp at h2
-  · intro a ha; rw [ha] at h3; exact h3
 
 /-- **plan_metric_correct_ext.** For every metric query of the labelled path that `supportedX` admits, every context and
     every database: the generated statement, under `Sql.SemAgg`, returns exactly the matrix of the direct reading
@@ -399,10 +395,10 @@ theorem supportedX_spec (q : MetricQueryX) (h : supportedX q = true) :
 theorem planMetricX_correct (o : Oracles) (c : MCtx) (hn : c.namesOk) (d : LokiDb) (q : MetricQueryX)
     (hsup : supportedX q = true) :
     (evalSelA o (d.toDbM c) (planMetricX c q)).map normRow = evalMetricX o c d q := by
-  obtain ⟨hpost, hplain, _, hok, hms, hd, hm⟩ := supportedX_spec q hsup
+  obtain ⟨hpost, hplain, _, hms, hd, hm⟩ := supportedX_spec q hsup
   obtain ⟨L, hps, hfresh, hat, hcol⟩ := rangePhaseX_ok o c hn d q.range hpost hplain hm hms hd
   unfold planMetricX evalMetricX
-  rw [tailX_ok o c d q.range.sel q.range.durNs q.agg q.topk (rangePhaseX c q.range) _ L hps hfresh hat hcol hok,
+  rw [tailX_ok o c d q.range.sel q.range.durNs q.agg q.topk (rangePhaseX c q.range) _ L hps hfresh hat hcol,
     metricPointsX_eq]
 
 end Qryn.LogQL
